@@ -10,7 +10,7 @@ class Contract:
     def __init__(self, qualname, params=None, self_ty=None, ret=None, requires=(), ensures=None,
                  raises=None, where=None, loops=None, comps=None, pure=True, assumed=False,
                  properties=(), note="", ret_fields=None, enum_params=None, ghost=None, fn_params=None,
-                 raises_only=False, any_raises=False, locals=None, uses=(), captured=None, ret_py=None, abstractions=None, traced=False, on_raise=None, enum_cover=False, ghost_requires=(), alternatives=(), internal=None, witness=None, source=None):
+                 raises_only=False, any_raises=False, locals=None, uses=(), captured=None, ret_py=None, abstractions=None, traced=False, on_raise=None, enum_cover=False, ghost_requires=(), alternatives=(), internal=None, witness=None, source=None, frame=None):
         self.qualname = qualname
         self.params = OrderedDict(params or {})  # name -> type string
         self.self_ty = self_ty
@@ -41,6 +41,7 @@ class Contract:
         self.internal = OrderedDict(internal or {})  # postconditions over final locals: proved, but not visible at call sites
         self.witness = OrderedDict(witness or {})  # name -> (type, expression over the final state): existential witnesses of the ensures;
         # proved for that term in the body, a fresh constant at call sites
+        self.frame = frame  # class frame: {'under_contract': [...], 'acknowledged': [...]} member names
         self.source = source  # instance contract: verify the body of this other qualified name (an extra, more concrete contract)
         self.uses = list(uses)  # [(lemma name, {lemma var: expr})]: proved lemmas instantiated as hypotheses at return
         self.locals = locals or {}  # local variable -> type string (for values whose type cannot be inferred)  # callee may raise anything (assumed externals)
